@@ -2,7 +2,7 @@
    bool/option/unit/prod/list/sumbool/comparison map to OCaml's own types; N, Z, positive, nat stay
    the extracted inductives.  No Extract Constant. *)
 From Coq Require Import NArith ZArith List Extraction ExtrOcamlBasic.
-From Rawr Require Import Consts Bits Magic Position MoveGen MakeMove Fen Eval TT Search Uci Rules Abs UciSpec GameTree Style.
+From Rawr Require Import Consts Bits Magic Position MoveGen MakeMove Fen Eval TT Search Uci Rules Abs UciSpec GameTree Style MakeStages.
 
 Extraction Language OCaml.
 Extraction "model.ml"
@@ -23,4 +23,5 @@ Extraction "model.ml"
   move_str denotes play_tokens qvalue_b mating_moves
   aggression_score positional_score pawn_pusher_score Style.is_valid
   valid_b ep_retro material in_D consistent
+  premises_b cpremises_b refines_b
   N.of_nat N.to_nat Z.of_N Z.to_N Z.of_nat.
